@@ -16,7 +16,7 @@ import functools
 import schedula as sh
 from . import Token
 from ..errors import TokenError
-from .parenthesis import _update_n_args, Parenthesis
+from .parenthesis import _update_n_args, _follows_operand
 
 maxcol = 16384
 maxrow = 1048576
@@ -37,11 +37,8 @@ NA = XlError('#N/A')
 
 class Operand(Token):
     def ast(self, tokens, stack, builder):
-        if tokens:
-            t = tokens[-1]
-            b = isinstance(t, Parenthesis) and t.has_end
-            if b or isinstance(t, Operand) or t.name == '%':
-                raise TokenError()  # Two adjacent operands.
+        if _follows_operand(tokens):
+            raise TokenError()  # Two adjacent operands.
         super(Operand, self).ast(tokens, stack, builder)
         builder.append(self)
         _update_n_args(stack)
